@@ -564,3 +564,7 @@ def run(ck, F, tier):
     # leaves inverse_rle as Horiz / Vert / Dc / Zero only when every non-zero stored coefficient lies in that shape (C10's rule E)
     from . import c10
     c10.rule_e(Scoped(ck, 'C10.'), F)
+    # the dequantiser sees the right (block, position, quantizer): decode_block is told the decoder options and picture header that select the escape form,
+    # its result goes to inverse_rle with the in-force quantizer, which follows DQUANT / GQUANT (C02's rules D and H)
+    from . import c02
+    c02.rule_d(Scoped(ck, 'C02.'), F)
